@@ -46,7 +46,7 @@ THOROUGH = QUICK + [
     _k('coarse_storage_onevar', opt='coarse', kind='storage', T=4, eff=None),
     _k('coarse_storage_T6_3h', opt='coarse', kind='storage', T=6, eff=0.75, coarse='3h'),
     _k('coarse_take_contract', opt='coarse', kind='take', T=4),
-    _k('coarse_contract_straddles_end', opt='coarse', kind='contract', T=5, win=(1, 8)),
+    _k('coarse_contract_straddles_end', opt='coarse', kind='contract', T=5, win=(2, 9)),
     _k('coarse_contract_halfhour', opt='coarse', kind='contract', T=4, freq='30min', coarse='h'),
     _k('periodic_contract_caps_ts', opt='periodic', kind='caps_ts', T=4),
     _k('periodic_multicommodity', opt='periodic', kind='multicommodity', T=4),
